@@ -1,7 +1,7 @@
 /* C14: SPxBasisBase<R>::writeBasis / readBasis (src/soplex/spxbasis.hpp) at R = double.
  * The two bodies, the static helpers getRowName/getColName, LPRowSetBase::type, Desc::rowStatus/colStatus,
  * dualRowStatus/dualColStatus and MPSInput's small accessors are #included verbatim from slices of the current tree.
- * std::ostream, std::stringstream, std::istream + MPSInput::readLine, NameSet, spx_alloc/spx_free, placement new and
+ * std::ostream, std::ofstream, std::string, std::stringstream, std::istream + MPSInput::readLine, NameSet, spx_alloc/spx_free, placement new and
  * the LP are ghost-recording stubs (listed under "trusted" in unit.json). */
 #include "verif.h"
 #include "constants.h"
